@@ -30,7 +30,7 @@ class C04(CheckBase):
     stubbed_components = ['SimFileAccess (the medium, in memory)']
 
     def budget(self, tier):
-        return 500 if tier == 'quick' else 12000
+        return 1000 if tier == 'quick' else 15000
 
     def time_cap(self, tier):
         return 600 if tier == 'quick' else 5400
